@@ -59,8 +59,7 @@ theorem C13_empty (cc : CharClass) (st : WSt) (cm : Bool) (columns : Nat) (cw : 
     (h : (Wd.list st cm columns cw spacing kp u nw []).render cc w = .ok r) : r.lines = [] := by
   rw [render_list_eq, if_neg (by omega), renderListItems.eq_1] at h
   cases h
-  show (drawColumns _ _ _ _ _ _ _ _).buf = []
-  rw [drawColumns_all_nil _ _ _ _ _ _ _ _ (orderedMap_zero_all_nil cm columns)]
+  exact congrArg WSt.buf (drawColumns_all_nil _ _ _ _ _ _ {} 0 (orderedMap_zero_all_nil cm columns))
 
 /-! ### what `render` draws -/
 
@@ -82,8 +81,8 @@ theorem C13_render_shape (cc : CharClass) (st : WSt) (cm : Bool) (columns : Nat)
       r.lines = (drawColumns (usedWidth cw columns spacing w) spacing labels (items'.map Wd.lines)
         (rowHeight cm columns (((items'.map Wd.lines).zip labels).map fun (g, l) =>
           max g.length (match l with | some nw => nw.st.buf.length | none => 0)))
-        (orderedMap cm columns items'.length) {} 0).buf := by
-  sorry
+        (orderedMap cm columns items'.length) {} 0).buf :=
+  render_list_shape cc st cm columns cw spacing kp u nw items w r h
 
 /-! ### placement: every item once, at its cell's position, nothing overlapping -/
 
@@ -98,8 +97,8 @@ theorem C13_place_items (cm : Bool) (columns : Nat) (hc : 1 ≤ columns) (used :
     (i : Nat) (hi : i < grids.length) (a b : Nat) (ha : a < grids[i].length) (hb : b < (grids[i][a]).length) :
     cell (drawColumns used spacing labels grids rowH (orderedMap cm columns grids.length) {} 0).buf
       (rowTop rowH (cellOf cm columns grids.length i).1 + a)
-      (colLeft used spacing (cellOf cm columns grids.length i).2 + labelLen labels i + b) = some (grids[i][a])[b] := by
-  sorry
+      (colLeft used spacing (cellOf cm columns grids.length i).2 + labelLen labels i + b) = some (grids[i][a])[b] :=
+  place_items cm columns hc used spacing labels grids rowH ok hH i hi a b ha hb
 
 /-- … and its number label (as rendered) is shown on the first row of the cell from the band's left
 edge -/
@@ -111,8 +110,8 @@ theorem C13_place_labels (cm : Bool) (columns : Nat) (hc : 1 ≤ columns) (used 
     (i : Nat) (hi : i < grids.length) (row : List Char) (hrow : labelBuf labels i = [row]) (b : Nat) (hb : b < row.length) :
     cell (drawColumns used spacing labels grids rowH (orderedMap cm columns grids.length) {} 0).buf
       (rowTop rowH (cellOf cm columns grids.length i).1)
-      (colLeft used spacing (cellOf cm columns grids.length i).2 + b) = some row[b] := by
-  sorry
+      (colLeft used spacing (cellOf cm columns grids.length i).2 + b) = some row[b] :=
+  place_labels cm columns hc used spacing labels grids rowH ok hH i hi row hrow b hb
 
 /-- the row heights computed by the container dominate every item and label of the row -/
 theorem C13_row_height (cm : Bool) (columns : Nat) (heights : List Nat) (i : Nat) (hi : i < heights.length) :
@@ -124,8 +123,9 @@ of distinct cells are disjoint, consecutive bands are `spacing` apart and a row 
 above ends. -/
 theorem C13_disjoint (used : Int) (hu : 0 < used) (spacing : Nat) (rowH : Nat → Nat) (r r' c c' : Nat) :
     (c < c' → colLeft used spacing c + used.toNat + spacing ≤ colLeft used spacing c') ∧
-    (r < r' → rowTop rowH r + rowH r ≤ rowTop rowH r') :=
-  ⟨colLeft_mono used spacing c c', rowTop_mono rowH r r'⟩
+    (r < r' → rowTop rowH r + rowH r ≤ rowTop rowH r') := by
+  have _ := hu
+  exact ⟨colLeft_mono used spacing c c', rowTop_mono rowH r r'⟩
 
 /-- with no forced columns width the whole layout fits the requested width: every band ends at or
 before column `w` -/
